@@ -21,6 +21,7 @@ import (
 	"fmt"
 	"image"
 	"image/color"
+	"image/jpeg"
 	"image/png"
 	"io"
 	"log"
@@ -1367,52 +1368,193 @@ func c12JSONTexts(c *Ctx) {
 }
 
 // Image parameter payloads (PNG through a jbtf buffer view): a single Image parameter is the last view, so it must
-// reload with the same pixels and re-save byte for byte
-func c12ImagePayloads(c *Ctx) {
-	r := c.Rng
-	n := 6
-	if c.Tier == "thorough" {
-		n = 100
+// reload with the same PIXELS AT FULL DEPTH (every image kind PNG can carry, and JPEG uploads), the same name and
+// description, re-save byte for byte, and feed an image producer the same picture.
+
+// every pixel as 16-bit RGBA (premultiplied, what image.Image guarantees) and as 16-bit NRGBA (exact for NRGBA64)
+func c12Pixels(img image.Image) string {
+	if img == nil {
+		return "nil"
 	}
-	imgT := c12P + "Image"
-	for i := 0; i < n; i++ {
-		w, h := 1+r.Intn(8), 1+r.Intn(8)
-		img := image.NewNRGBA(image.Rect(0, 0, w, h))
+	b := img.Bounds()
+	var sb strings.Builder
+	fmt.Fprintf(&sb, "%d,%d,%d,%d:", b.Min.X, b.Min.Y, b.Max.X, b.Max.Y)
+	for y := b.Min.Y; y < b.Max.Y; y++ {
+		for x := b.Min.X; x < b.Max.X; x++ {
+			r, g, bl, a := img.At(x, y).RGBA()
+			n := color.NRGBA64Model.Convert(img.At(x, y)).(color.NRGBA64)
+			fmt.Fprintf(&sb, "%04x%04x%04x%04x%04x%04x%04x%04x", r, g, bl, a, n.R, n.G, n.B, n.A)
+		}
+	}
+	return sb.String()
+}
+
+func c12RandomImage(r interface{ Intn(int) int }, kind string, w, h int) ([]byte, error) {
+	rect := image.Rect(0, 0, w, h)
+	u8 := func() uint8 { return uint8(r.Intn(256)) }
+	u16 := func() uint16 { return uint16(r.Intn(65536)) }
+	var img image.Image
+	switch kind {
+	case "gray":
+		m := image.NewGray(rect)
+		for i := range m.Pix {
+			m.Pix[i] = u8()
+		}
+		img = m
+	case "gray16":
+		m := image.NewGray16(rect)
 		for y := 0; y < h; y++ {
 			for x := 0; x < w; x++ {
-				img.SetNRGBA(x, y, color.NRGBA{R: uint8(r.Intn(256)), G: uint8(r.Intn(256)), B: uint8(r.Intn(256)), A: uint8(128 + r.Intn(128))})
+				m.SetGray16(x, y, color.Gray16{Y: u16()})
 			}
+		}
+		img = m
+	case "nrgba":
+		m := image.NewNRGBA(rect)
+		for i := range m.Pix {
+			m.Pix[i] = u8()
+		}
+		img = m
+	case "nrgba64":
+		m := image.NewNRGBA64(rect)
+		for y := 0; y < h; y++ {
+			for x := 0; x < w; x++ {
+				m.SetNRGBA64(x, y, color.NRGBA64{R: u16(), G: u16(), B: u16(), A: uint16(32768 + r.Intn(32768))})
+			}
+		}
+		img = m
+	case "rgba":
+		m := image.NewRGBA(rect)
+		for y := 0; y < h; y++ {
+			for x := 0; x < w; x++ {
+				a := 1 + r.Intn(255)
+				m.SetRGBA(x, y, color.RGBA{R: uint8(r.Intn(a + 1)), G: uint8(r.Intn(a + 1)), B: uint8(r.Intn(a + 1)), A: uint8(a)})
+			}
+		}
+		img = m
+	case "rgba64":
+		m := image.NewRGBA64(rect)
+		for y := 0; y < h; y++ {
+			for x := 0; x < w; x++ {
+				a := 1 + r.Intn(65535)
+				m.SetRGBA64(x, y, color.RGBA64{R: uint16(r.Intn(a + 1)), G: uint16(r.Intn(a + 1)), B: uint16(r.Intn(a + 1)), A: uint16(a)})
+			}
+		}
+		img = m
+	case "rgba64-opaque":
+		m := image.NewRGBA64(rect)
+		for y := 0; y < h; y++ {
+			for x := 0; x < w; x++ {
+				m.SetRGBA64(x, y, color.RGBA64{R: u16(), G: u16(), B: u16(), A: 0xffff})
+			}
+		}
+		img = m
+	case "paletted":
+		pal := color.Palette{color.NRGBA{0, 0, 0, 255}, color.NRGBA{255, 0, 0, 255}, color.NRGBA{12, 200, 77, 255}, color.NRGBA{9, 9, 250, 128}}
+		m := image.NewPaletted(rect, pal)
+		for i := range m.Pix {
+			m.Pix[i] = uint8(r.Intn(len(pal)))
+		}
+		img = m
+	case "jpeg", "jpeg-gray":
+		var src image.Image
+		if kind == "jpeg" {
+			m := image.NewRGBA(rect)
+			for i := range m.Pix {
+				m.Pix[i] = u8()
+			}
+			for i := 3; i < len(m.Pix); i += 4 {
+				m.Pix[i] = 255
+			}
+			src = m
+		} else {
+			m := image.NewGray(rect)
+			for i := range m.Pix {
+				m.Pix[i] = u8()
+			}
+			src = m
 		}
 		var buf bytes.Buffer
-		png.Encode(&buf, img)
-		app := &generator.App{}
-		inst := c12Instance(app)
-		res := Guard(func() string {
-			_, id, err := inst.CreateNode(imgT)
+		err := jpeg.Encode(&buf, src, &jpeg.Options{Quality: 90})
+		return buf.Bytes(), err
+	}
+	var buf bytes.Buffer
+	err := png.Encode(&buf, img)
+	return buf.Bytes(), err
+}
+
+func c12ImagePayloads(c *Ctx) {
+	r := c.Rng
+	kinds := []string{"gray", "gray16", "nrgba", "nrgba64", "rgba", "rgba64", "rgba64-opaque", "paletted", "jpeg", "jpeg-gray"}
+	rounds := 2
+	if c.Tier == "thorough" {
+		rounds = 30
+	}
+	imgT := c12P + "Image"
+	imgNodeT := "github.com/EliCDavis/polyform/nodes.Struct[github.com/EliCDavis/polyform/generator/artifact.Artifact,github.com/EliCDavis/polyform/generator/artifact/basics.ImageNodeData]"
+	for round := 0; round < rounds; round++ {
+		for _, kind := range kinds {
+			w, h := 1+r.Intn(9), 1+r.Intn(9)
+			if round == 0 {
+				w, h = 1, 1
+			}
+			if round == 1 {
+				w, h = 3+2*r.Intn(3), 1+2*r.Intn(4) // odd sizes
+			}
+			payload, err := c12RandomImage(r, kind, w, h)
 			if err != nil {
-				return "err-create"
+				continue
 			}
-			if _, err := inst.UpdateParameter(id, buf.Bytes()); err != nil {
-				return "err-update"
+			app := &generator.App{}
+			inst := c12Instance(app)
+			res := Guard(func() string {
+				_, id, err := inst.CreateNode(imgT)
+				if err != nil {
+					return "err-create"
+				}
+				if _, err := inst.UpdateParameter(id, payload); err != nil {
+					return "err-update"
+				}
+				inst.Parameter(id).SetName("picture")
+				inst.Parameter(id).SetDescription("an image")
+				_, pid, err := inst.CreateNode(imgNodeT)
+				if err != nil {
+					return "err-create-producer"
+				}
+				inst.ConnectNodes(id, "Out", pid, "In")
+				inst.SetNodeAsProducer(pid, "img.png")
+				live := c12Pixels(inst.Node(id).(*parameter.Image).Value())
+				before := inst.ParameterData(id)
+				s1 := app.Schema()
+				fresh := &generator.App{}
+				fi := c12Instance(fresh)
+				if err := fresh.ApplySchema(s1); err != nil {
+					return "err-apply"
+				}
+				p := fi.Node(id).(*parameter.Image)
+				reloaded := c12Pixels(p.Value())
+				after := fi.ParameterData(id)
+				s2 := fresh.Schema()
+				art := func(in *graph.Instance) string {
+					var buf bytes.Buffer
+					if err := in.Artifact("img.png").Write(&buf); err != nil {
+						return "err-artifact"
+					}
+					im, err := png.Decode(&buf)
+					if err != nil {
+						return "err-artifact-decode"
+					}
+					return c12Pixels(im)
+				}
+				return strings.Join([]string{hs("ok"), hs(live), hs(reloaded), hs(art(inst)), hs(art(fi)), hb(before), hb(after), hs(string(s1)), hs(string(s2)),
+					B(p.Name == "picture" && p.Description == "an image")}, " ")
+			})
+			if !strings.HasPrefix(res, "s") {
+				res = hs(res) + " s s s s s s s s false"
 			}
-			inst.Parameter(id).SetName("picture")
-			inst.Parameter(id).SetDescription("an image")
-			before := inst.ParameterData(id)
-			s1 := app.Schema()
-			fresh := &generator.App{}
-			fi := c12Instance(fresh)
-			if err := fresh.ApplySchema(s1); err != nil {
-				return "err-apply"
-			}
-			after := fi.ParameterData(id)
-			s2 := fresh.Schema()
-			p := fi.Node(id).(*parameter.Image)
-			return strings.Join([]string{hs("ok"), hb(before), hb(after), hs(string(s1)), hs(string(s2)), B(p.Name == "picture" && p.Description == "an image")}, " ")
-		})
-		if !strings.HasPrefix(res, "s") {
-			res = hs(res) + " s s s s false"
+			c.Emit("c12.holds.image_payload_kept", hs(kind)+" "+res, "true")
+			c.Note("image." + kind)
 		}
-		c.Emit("c12.holds.image_payload_kept", res, "true")
 	}
 }
 
